@@ -630,7 +630,7 @@ COMPONENTS = {
              'LatexNodes2Text subclass that only records the names read_input_file receives'],
 }
 TIERS = {
-    'quick': {'runs': 12000, 'wall_cap': 300},
+    'quick': {'runs': 40000, 'wall_cap': 300},
     'thorough': {'runs': 200000, 'wall_cap': 3600},
 }
 EXPECTED_PROBES = ['name-leaves-lexically', 'name-steps-on-link', 'extension-fallback-expected',
